@@ -19,7 +19,7 @@ from concurrent.futures import ThreadPoolExecutor
 from queue import Queue
 
 VERIF = os.path.dirname(os.path.dirname(os.path.abspath(__file__)))
-ROOT = "/tmp/sweep"
+ROOT = f"/tmp/sweep{os.getpid()}"
 
 
 def sh(cmd, cwd=None, env=None, timeout=7200):
@@ -43,7 +43,7 @@ def main():
             continue
         if only and d not in only and d.split("-")[0] not in only:
             continue
-        jobs.append((d.split("-")[0], d))
+        jobs.append((arg("--check-prop", d.split("-")[0]), d))
     if "--clean" in sys.argv:
         props = sorted({p for p, _ in jobs}) if only else [f"C{i:02d}" for i in range(1, 21)]
         jobs = [(p, None) for p in props] + ([] if "--clean-only" in sys.argv else jobs)
@@ -107,7 +107,7 @@ def main():
         mp = os.path.join(VERIF, "seeded", sd, "meta.json")
         meta = json.load(open(mp))
         res2 = {k: v for k, v in res.items() if k != "tail"}
-        if seed is None:
+        if seed is None and arg("--check-prop") is None:
             meta.setdefault("verif", {}).setdefault("checks", {})[tier] = {pid: res2}
             json.dump(meta, open(mp, "w"), indent=1)
         if not (res.get("exit") == 1 and res.get("violation_line")):
